@@ -41,6 +41,7 @@ def term(v):
 
 _RECORDERS = {}
 EXPECT_BI = [0]         # the batch index the run metadata must carry (sessions of several batches set it per batch)
+EXPECT_META = {}        # further expected fields of the run metadata when the driver knows them: submission_index, master_seed, model_name
 
 
 def _token(bs, k, v):
@@ -50,6 +51,7 @@ def _token(bs, k, v):
         return ["RS"] if isinstance(v, np.random.RandomState) else ["RS?", type(v).__name__]
     if k == "meta":
         ok = isinstance(v, dict) and v.get("batch_index") == EXPECT_BI[0] and "submission_index" in v and "master_seed" in v
+        ok = ok and all(v.get(k) == want for k, want in EXPECT_META.items())
         return ["META"] if ok else ["META?", repr(v)[:40]]
     return term(v)
 
